@@ -21,7 +21,10 @@ REJ = ["4294967296", "2147483648'", "2147483648h", "4294967295'", "-1", "-1'", "
        "h", "1''", "0x1", "--1", "1-", "1H", "m", "99999999999999999999", "1.0", "1e3", "", "0'h", "²"[:0] + "a'", "1 1", "4 4'", "1' ", "1'\n", "1__0", "_1", "1_", "2 5h", "+ 1", "1+"]
 EITHER = ["+1", " 1", "1_0", "-0", "-0'", "1 '", "1 ", "\t7", "٣", "１", "+2147483647'", "4_294_967_295", " 00 "]
 OTHER_OK = ["007", "007'", "0000000000001", "00'"]
-BADROOTS = ["", "n", "m ", " m", "mm", "0", "M'", "/m"]
+# every token of length 0..2 over a small alphabet except the two legal roots, and some longer ones
+_RA = "mMxn0' h"
+BADROOTS = sorted({a + b for a in [""] + list(_RA) for b in [""] + list(_RA)} - {"m", "M"}) + \
+    ["mm", "/m", "mMm", "master", "m44'", "M0", "\uff4d", "\u217f", "m\u200b"]
 
 
 def gen_inputs(ctx):
